@@ -431,3 +431,32 @@ func c03ReferenceTok(db *Database, terms []string) map[int]float64 {
 	}
 	return c03Reference(tmp, terms, func(string) float64 { return 1.0 })
 }
+
+// a word that occurs in (nearly) every command is still a content word: all of them are returned
+func VerifHarness_C03_ScanUbiquitous() {
+	mk := func(cmd, d string) Command {
+		c := Command{Command: cmd, Description: d}
+		vFill(&c)
+		return c
+	}
+	n := verifIntRange("commands", 4, 16)
+	var cmds []Command
+	for i := 0; i < n; i++ {
+		cmds = append(cmds, mk("docker c"+string(rune('a'+i)), "container "+string(rune('a'+i))))
+	}
+	if verifBool("oneWithout") {
+		cmds[n-1] = mk("zz", "yy")
+	}
+	db := &Database{Commands: cmds}
+	db.BuildUniversalIndex()
+	res := db.SearchUniversal("docker", SearchOptions{Limit: 50, AllPlatforms: true})
+	want := 0
+	for i := range db.Commands {
+		if strings.Contains(db.Commands[i].Command, "docker") {
+			want++
+		}
+	}
+	verifAssert(len(res) == want, "C03: the commands returned are exactly those containing a content word of the query (a ubiquitous word included)")
+	verifReach("compared")
+	verifReach("nonempty")
+}
